@@ -162,6 +162,8 @@ pub enum FAct {
     WaitDropped(usize),
     /// Block until the consumer of pipe p is waiting for an output (its poll returned Pending), or will not read any more
     WaitConsumerWaiting(usize),
+    /// Block until caller thread 0 of the first phase has finished all its acts
+    WaitThread0Done,
 }
 
 #[derive(Clone, Copy, PartialEq, Eq, Debug)]
@@ -371,6 +373,6 @@ fn tact_code(a: &TAct) -> u64 {
 fn fact_code(a: &FAct) -> u64 {
     match a {
         FAct::Fire(g) => 100 + *g as u64, FAct::WaitRet(o) => 1000 + *o as u64, FAct::WaitStart(o) => 5000 + *o as u64,
-        FAct::Resume(o, b) => 2000 + *o as u64 * 2 + *b as u64, FAct::Item(p) => 3000 + *p as u64, FAct::Close(p) => 4000 + *p as u64, FAct::WaitDropped(p) => 6000 + *p as u64, FAct::WaitConsumerWaiting(p) => 7000 + *p as u64,
+        FAct::Resume(o, b) => 2000 + *o as u64 * 2 + *b as u64, FAct::Item(p) => 3000 + *p as u64, FAct::Close(p) => 4000 + *p as u64, FAct::WaitDropped(p) => 6000 + *p as u64, FAct::WaitConsumerWaiting(p) => 7000 + *p as u64, FAct::WaitThread0Done => 8000,
     }
 }
